@@ -25,6 +25,8 @@ def run(argv):
         patch = os.path.join(RF, rid, "patch.diff")
         if not os.path.exists(patch) or (flt and not any(f in rid for f in flt)):
             continue
+        if rid.startswith("unsupported") and not flt:
+            continue      # kept for the record: these end in exit 2 by design (DESIGN.md 12.8)
         d = tempfile.mkdtemp(prefix="curtsies-rf-")
         wt = os.path.join(d, "wt")
         subprocess.run(["git", "-C", "/repo", "worktree", "add", "-q", "--detach", wt, "HEAD"], check=True)
